@@ -56,7 +56,7 @@ class Rig:
         msg = data["message"]
         h = msg.header
         rec = {"system": h.system, "stream": h.stream, "function": h.function, "wbit": h.require_response,
-               "session": h.device_id, "body": bytes(msg.data), "thread": threading.get_ident()}
+               "session": h.device_id, "body": bytes(msg.data), "thread": threading.get_ident(), "t": time.monotonic()}
         with self.lock:
             self.in_callback += 1
             self.max_in_callback = max(self.max_in_callback, self.in_callback)
